@@ -458,12 +458,12 @@ func (i *info) Mode() FileMode {
 	}
 	return 0o644
 }
-func (i *info) ModTime() time.Time       { return i.mt }
-func (i *info) IsDir() bool              { return i.dir }
-func (i *info) Sys() interface{}         { return nil }
-func (i *info) Type() FileMode           { return i.Mode().Type() }
-func (i *info) Info() (FileInfo, error)  { return i, nil }
-func (i *info) String() string           { return fmt.Sprintf("%s(%d)", i.name, i.size) }
+func (i *info) ModTime() time.Time      { return i.mt }
+func (i *info) IsDir() bool             { return i.dir }
+func (i *info) Sys() interface{}        { return nil }
+func (i *info) Type() FileMode          { return i.Mode().Type() }
+func (i *info) Info() (FileInfo, error) { return i, nil }
+func (i *info) String() string          { return fmt.Sprintf("%s(%d)", i.name, i.size) }
 
 // ---------------------------------------------------------------- package API
 
